@@ -20,6 +20,9 @@ func init() {
 			"the distinct rule (the stage works on allocated state)",
 			"PF-NIL pcommon.Map methods on Attrs.AsMap() results only under m != pcommon.Map{}",
 			"PV-PAIR binOpIterator.Next combines only matched pairs",
+			"label_format rename is guarded by the presence of the source; literalBinOpIterator.Next structure",
+			"PV-ONCE step transformers read one inner step per outer step (no loop that can spin on an unbounded grid)",
+			"PF-IDX constant indices in the Docker backend are guarded",
 		},
 		NotDecided: []string{
 			"termination of loops (lexer scanners, IPLineFilter, stepper – the last relies on C16's positivity for CLI callers)",
@@ -48,7 +51,11 @@ func init() {
 			rulePFDeferNil(r, []string{enginePkg, metricPkg, dockerlogPkg, cmdPkg})
 			ruleDistinct(r) // the stage works on its own, allocated state
 			ruleAttrMapZeroGuard(r)
-			ruleBinOpPairsMatched(r) // an unmatched series is never combined with a zero sample (nil label set)
+			ruleBinOpPairsMatched(r)    // an unmatched series is never combined with a zero sample (nil label set)
+			ruleLabelFormatDirection(r) // a rename never stores a value it did not find
+			ruleLiteralBinOpWritesBack(r)
+			ruleOneInnerStepPerStep(r)
+			ruleConstIndexGuarded(r, []string{dockerlogPkg}, 2)
 		},
 	})
 }
